@@ -287,10 +287,10 @@ def no_error_turned_into_success(ctx, prog, rule, floor=300):
             continue
         errs = f.err_exit_blocks()
         rets = set(f.return_blocks())
-        if opt:
-            # iterator protocol (`fn next() -> Option<Result<T>>`): the error side has to end in Some(Err(..)); ending the
-            # iteration (None) or yielding a value hides the failure
-            Rf = Resolver(f, max_depth=12)
+        def opt_errs(fv):
+            # iterator protocol (`fn next() -> Option<Result<T>>`): the error side has to end in Some(Err(..)) - or in
+            # Some(r) where r is the failed result itself; ending the iteration (None) or yielding a value hides the failure
+            Rf = Resolver(fv, max_depth=12)
 
             def is_err(t):
                 t = strip(t)
@@ -301,16 +301,17 @@ def no_error_turned_into_success(ctx, prog, rule, floor=300):
                 if t[0] == "phi":
                     return all(is_err(a) for a in t[1])
                 return False
-            errs = set()
-            for bi_, si_, cls_, payload_ in f.ret_assignments():
+            out = set()
+            for bi_, si_, cls_, payload_ in fv.ret_assignments():
                 if cls_ == "some":
                     v_ = strip(Rf.rvalue(payload_))
                     if v_[0] == "agg" and v_[2] and is_err(v_[2][0]):
-                        errs.add(bi_)
+                        out.add(bi_)
                 elif cls_ == "err":
-                    errs.add(bi_)
-            if not errs:
-                continue
+                    out.add(bi_)
+            return out
+        if opt and not opt_errs(f):
+            continue
         for bi, t in f.calls():
             if t["dest"]["proj"] or t["target"] < 0 or not f.local_ty(t["dest"]["local"]).startswith("std::result::Result<"):
                 continue
@@ -318,6 +319,20 @@ def no_error_turned_into_success(ctx, prog, rule, floor=300):
             if g == f.cfg():
                 continue                    # never inspected here (returned as it is, or dropped: R1)
             tested += 1
+            if opt:
+                # values are resolved on the flow graph pruned under "this call failed": `Some(r.map(..))` is then Some(Err)
+                from simple_rules import fn_view
+                fv = fn_view(f, g)
+                errs = opt_errs(fv)
+                # the failed result handed out unchanged: Some(<the call result>)
+                Rv = Resolver(fv, max_depth=12)
+                for bi_, si_, cls_, payload_ in fv.ret_assignments():
+                    if cls_ == "some":
+                        v_ = strip(Rv.rvalue(payload_))
+                        if v_[0] == "agg" and v_[2]:
+                            x_ = strip(v_[2][0])
+                            if x_[0] == "call" and len(x_) > 3 and x_[3] == bi:
+                                errs.add(bi_)
             pth = find_path(g, g.get(bi, []), rets, errs)
             if pth is not None:
                 ctx.fn_seen(f)
